@@ -46,7 +46,7 @@
 (***************************************************************************)
 EXTENDS DiffOps
 
-CONSTANTS Facet,        \* "cases" (configuration enumeration) | "stream" (behaviours) | "reassign" (facet 4) | "siblings" (facet 5)
+CONSTANTS Facet,        \* "cases" (configuration enumeration) | "stream" (behaviours) | "reassign" (facet 4) | "siblings" (facet 5) | "firstobs" (facet 6)
           Dev,          \* "none" or a named deviation
           MaxDim,       \* Gaussian lattice: dimensions 1..MaxDim (<= 3)
           PinvMax,      \* largest 1-D node count with the rational pseudo-inverse design check (orders 0, 1)
@@ -710,6 +710,49 @@ EmitSiblings ==
     (Emit /\ Facet = "siblings" /\ SibTerminal) => PrintT("@@CASE " \o ToJson([kind |-> "sibwalk", ops |-> c.ops]) \o " @@END")
 
 \* ===========================================================================
+\*  Facet 6 : FirstObservable - after a public setter, ANY observable may be the first one used
+\* ===========================================================================
+\* Some objects do not sample with their own parameters directly but with something made from them: an inner distribution
+\* (Lognormal wraps a Gaussian), a frozen base generator, a factorisation.  Bringing that inner state up to date may happen
+\* lazily - but then it has to happen in EVERY observable that uses it: after `obj.<parameter> = value` the user may call
+\* sample, logpdf or gradient first, in any order, and the draw is a function of the CURRENT parameters in each case
+\* ("samples follow the density the same object reports").
+\*   state  c = [kind |-> "fo", done, inner, last, ops]
+\*     done    number of assignment units carried out so far (the units and their order are those of a Reassign case of facet 4:
+\*             the k-th "assign" of a walk is trail[k] of the case, the expected case after it is trail[k].expect)
+\*     inner   number of assignments the inner / derived state reflects
+\*     last    <<>> or <<assignments the answer was computed from, assignments carried out when it was computed>>
+\*   FoAssign        the next unit of the order is assigned through its public attribute (nothing is synchronised yet)
+\*   FoObserve(o)    o in {sample, logpdf, gradient}: the observable synchronises the inner state, then answers from it
+\* FoUsesCurrent: every answer is computed from all assignments made so far.  Named deviation Dev = "sync_in_density_only"
+\* (Sampling.dev.sync_in_density_only.cfg): `sample` answers from the inner state as it is - refuted by Assign . Sample.
+\* Every behaviour of at most MaxSteps operations that ends in a sample after an assignment is emitted; the replay drives the
+\* behaviours on real objects of every Reassign case (wiring families, Gaussian, Lognormal, GMRF) and judges EVERY sample by the
+\* affine read-off / wiring table of the expected case, without evaluating anything the walk does not contain.
+FoObs == {"sample", "logpdf", "gradient"}
+MaxFoUnits == 3
+FoSyncs(o) == ~(Dev = "sync_in_density_only" /\ o = "sample")
+FoInit ==
+    /\ c = [kind |-> "fo", done |-> 0, inner |-> 0, last |-> <<>>, ops |-> <<>>]
+    /\ gpos = <<>> /\ lpos = [r \in StreamRngs |-> <<>>] /\ hist = <<>>
+FoAssign ==
+    /\ c.done < MaxFoUnits /\ Len(c.ops) < MaxSteps
+    /\ c' = [c EXCEPT !.done = @ + 1, !.last = <<>>, !.ops = Append(@, [op |-> "assign"])]
+FoObserve(o) ==
+    /\ Len(c.ops) < MaxSteps
+    /\ LET used == IF FoSyncs(o) THEN c.done ELSE c.inner
+       IN c' = [c EXCEPT !.inner = used, !.last = <<used, c.done>>, !.ops = Append(@, [op |-> "observe", obs |-> o])]
+FoNext ==
+    /\ (FoAssign \/ \E o \in FoObs : FoObserve(o))
+    /\ UNCHANGED <<gpos, lpos, hist>>
+FoUsesCurrent == (Facet = "firstobs" /\ c.last # <<>>) => c.last[1] = c.last[2]
+FoWorth == /\ Len(c.ops) >= 2
+           /\ c.ops[Len(c.ops)].op = "observe" /\ c.ops[Len(c.ops)].obs = "sample"
+           /\ \E i \in 1..(Len(c.ops) - 1) : c.ops[i].op = "assign"
+EmitFirstObs ==
+    (Emit /\ Facet = "firstobs" /\ FoWorth) => PrintT("@@CASE " \o ToJson([kind |-> "fowalk", ops |-> c.ops]) \o " @@END")
+
+\* ===========================================================================
 SInit ==
     IF Facet = "cases"
     THEN /\ c \in CaseConfigs
@@ -718,8 +761,9 @@ SInit ==
     THEN /\ c \in {k @@ [re |-> [done |-> <<>>, cached |-> <<>>]] : k \in ReSampStart}
          /\ gpos = <<>> /\ lpos = [r \in StreamRngs |-> <<>>] /\ hist = <<>>
     ELSE IF Facet = "siblings" THEN SibInit
+    ELSE IF Facet = "firstobs" THEN FoInit
     ELSE StreamInit
 SNext == IF Facet = "cases" THEN UNCHANGED svars ELSE IF Facet = "reassign" THEN ReSampNext
-         ELSE IF Facet = "siblings" THEN SibNext ELSE StreamNext
+         ELSE IF Facet = "siblings" THEN SibNext ELSE IF Facet = "firstobs" THEN FoNext ELSE StreamNext
 SSpec == SInit /\ [][SNext]_svars
 =============================================================================
